@@ -111,11 +111,25 @@ def solver_args(cfg, prof_kind="most_u", precision="double", unit=U):
     )
 
 
+MODIFIED = []       # arguments the solver was seen to modify in place (reported by the check that drives the replays)
+
+
 def solve(q, kw, **over):
     steady, _ = _import()
     k = dict(kw)
     k.update(over)
+    # every identity compares several solves that share their argument arrays: a solve must leave them as they were
+    watched = {"srf_flx": q, "z": k["z"], "levels": k["levels"]}
+    watched.update({"profiles[%d]" % i: a for i, a in enumerate(k["profiles"])})
+    before = {n: np.array(a, copy=True) for n, a in watched.items() if isinstance(a, np.ndarray)}
     grid, conc, flx = steady(q, k.pop("z"), k.pop("profiles"), k.pop("domain"), k.pop("levels"), **k)
+    for n, b in before.items():
+        a = watched[n]
+        if a.shape != b.shape or not np.array_equal(a, b, equal_nan=True):
+            if len(MODIFIED) < 20:
+                MODIFIED.append(n)
+            if a.shape == b.shape:
+                a[...] = b              # restore, so that the remaining comparisons of this run stay meaningful
     return grid, np.asarray(conc), np.asarray(flx)
 
 
